@@ -34,7 +34,7 @@ COMPONENTS = {"real": ["Arbiter.handle_usr2/reexec/start (fd adoption)/maybe_pro
                        "sock.create_sockets(fds)/BaseSocket(fd=)/close_sockets/UnixSocket", "Pidfile.create/rename/unlink", "systemd.listen_fds"],
               "stub": ["kernel (fork, execvpe, descriptors, file system)", "worker run loop (4/7 of the cases; in 3/7 the real sync / gthread / gevent / eventlet worker serves the clients on both sides of the hand-over)", "clients"]}
 
-EVENTS = ["usr2", "usr2", "term_old", "quit_old", "term_new", "quit_new", "usr2_again", "kill_new", "winch_old", "hup_old", "usr2_new"]
+EVENTS = ["usr2", "usr2", "term_old", "quit_old", "term_new", "quit_new", "usr2_again", "kill_new", "winch_old", "hup_old", "usr2_new", "hup_new"]
 
 
 def make_case(index, rng, tier):
@@ -188,6 +188,8 @@ def run(case, choices):
                 tgt, sig = new, signal.SIGQUIT
             elif kind == "kill_new":
                 tgt, sig = new, signal.SIGKILL
+            elif kind == "hup_new":
+                tgt, sig = new, signal.SIGHUP          # a reload of the new master while the upgrade is still pending
             elif kind == "usr2_new":
                 tgt, sig = new, signal.SIGUSR2
                 pe = state["exits"].get(getattr(new, "parent_pid", -1))
@@ -235,6 +237,16 @@ def run(case, choices):
         for name, tb in sim.escaped:
             if name.startswith("master"):
                 res.violate("C14:master-crashed", "an exception escaped %s: %s; %s" % (name, tb[-500:], ctx()))
+        # a master only ever leaves because it was told to (TERM / QUIT / KILL): a reload, an upgrade or a worker event must not end it
+        for mp in masters:
+            if mp.state == "running":
+                continue
+            asked = [k for (t_, k) in state.get("sent", {}).get(mp.pid, []) if k.startswith(("term", "quit", "kill"))]
+            if not asked:
+                hist = [k for (t_, k) in state.get("sent", {}).get(mp.pid, [])]
+                res.violate("C14:master-exited-unasked:%s" % ("new" if mp is not m0 else "old"),
+                            "master pid %d exited with wait status %r although it was never told to stop (signals it received: %r); logs=%r; %s"
+                            % (mp.pid, mp.status, hist, [l for l in w.logs if l[0] in ("ERROR", "CRITICAL")][-2:], ctx()))
         if state["refused"]:
             res.violate("C14:connect-refused:%s" % ("unix" if case["unix"] else "tcp"),
                         "a client was refused at t=%.2f while master(s) %r were serving; %s" % (state["refused"][0][0], state["refused"][0][1], ctx()))
